@@ -337,13 +337,13 @@ std::string Bucket(int n)
     return "8+";
 }
 
-void Body(Src& s, Stats& st)
+void Body(Src& s, Stats& st, bool tsan_variant)
 {
     // -- configuration and schedule seed first (replay files carry them in their first bytes)
     Cfg a = PickCfg(s);
     uint64_t sched_seed = s.range<uint64_t>(0, UINT64_MAX);
     unsigned intensity = s.pick<unsigned>({24, 0, 6, 64, 160});
-    bool second_cfg = s.chance(56);
+    bool second_cfg = s.chance(56) && !tsan_variant; // a node costs seconds under ThreadSanitizer: one threaded run + the reference
     Cfg c2 = second_cfg ? PickCfg(s) : Cfg{};
     // -- scenario shape
     unsigned nblocks = s.range<unsigned>(1, 3);
@@ -362,6 +362,7 @@ void Body(Src& s, Stats& st)
         o.worker_threads = cfg.workers;
         o.prevout_threads = cfg.fetchers;
         o.immediate_signals = !cfg.sched_thread;
+        o.min_validation_cache = true; // fresh node: the caches are empty anyway (their behaviour is C13's); setting them up is slow under TSan
         auto t0 = std::chrono::steady_clock::now();
         auto sim = std::make_unique<ChainSim>(o);
         auto base = sim->LoadBase(104);
@@ -458,6 +459,6 @@ void Body(Src& s, Stats& st)
     "hash_serialized after every block. non-trivial = >=2 script workers and a test block with >=4 txs that is valid or has its defect after the "       \
     "first tx (first batch), and (with H1) >=1 injected yield taken; distinct = configuration + per-block (defect, tx count, inputs/16, position)"
 
-VERIF_TARGET(c14_parallel, nullptr, 44, 96, C14_RULE) { Body(s, st); }
+VERIF_TARGET(c14_parallel, nullptr, 44, 96, C14_RULE) { Body(s, st, false); }
 // same body under another name: the ThreadSanitizer stage (build/tsan) keeps its own evidence entry, work directory and corpus
-VERIF_TARGET(c14_parallel_tsan, nullptr, 44, 96, C14_RULE) { Body(s, st); }
+VERIF_TARGET(c14_parallel_tsan, nullptr, 44, 96, C14_RULE) { Body(s, st, true); }
